@@ -246,7 +246,12 @@ def specificity(args):
             alarms.append(rid)
             continue
         try:
-            for chk in REFACTOR_CHECKS.get(rid[:3], [rid[:3]]):
+            # a change is expected to be quiet for the property it was written to
+            # preserve; the first two batches kept all outputs identical and are
+            # cross-checked against the other checks too, the third batch ("may
+            # alter behaviour the property does not constrain") only against its own
+            checks = REFACTOR_CHECKS.get(rid[:3], [rid[:3]]) if rid[3:4] in ("r", "s") else [rid[:3]]
+            for chk in checks:
                 env = dict(os.environ)
                 env["VERIF_REPO"] = d
                 env["VERIF_REPO_SRC"] = os.path.join(d, "src")
